@@ -231,6 +231,13 @@ def wiring_harness(L, inp):
                 rd = util.AudioReader(data, block_dur=SymRat(pw, den), sr=sr, sw=sw, ch=ch)
                 w_expected = SymRat.of(rd.block_dur)
                 list(core.split(rd, analysis_window=SymRat(7, 3), **kw))      # analysis_window must be ignored for a reader
+            elif inp == "region":
+                w_expected = SymRat(pw, den)
+                list(core.split(core.AudioRegion(data, sr, sw, ch), analysis_window=SymRat(pw, den), **kw))
+            elif inp == "region.split":
+                w_expected = SymRat(pw, den)
+                kw.pop("validator")
+                list(core.AudioRegion(data, sr, sw, ch).split(analysis_window=SymRat(pw, den), validator=lambda f: False, **kw))
             else:
                 w_expected = SymRat(pw, den)
                 list(core.split(data, sr=sr, sw=sw, ch=ch, analysis_window=SymRat(pw, den), **kw))
@@ -386,6 +393,12 @@ def replay_fn(c):
             rd = ak.AudioReader(data, block_dur=aw, sr=sr, sw=sw, ch=ch)
             wexp = rd.block_dur
             list(ak.split(rd, analysis_window=7 / 3, **kw))
+        elif c["inp"] == "region":
+            wexp = aw
+            list(ak.split(ak.AudioRegion(data, sr, sw, ch), analysis_window=aw, **kw))
+        elif c["inp"] == "region.split":
+            wexp = aw
+            list(ak.AudioRegion(data, sr, sw, ch).split(analysis_window=aw, **kw))
         else:
             wexp = aw
             list(ak.split(data, sr=sr, sw=sw, ch=ch, analysis_window=aw, **kw))
@@ -459,7 +472,7 @@ def run(rep):
         ex = explore(c05.harness(L, 1, 1, 10, 3, mode, "function"))
         rep.add_exploration(hn, ex)
         tok.handle_cex(rep, hn, ex, c05.replay_fn, ideal=True)
-    for inp in ("bytes", "reader"):
+    for inp in ("bytes", "reader", "region", "region.split"):
         ex = explore(wiring_harness(L, inp))
         rep.add_exploration("wiring[%s]" % inp, ex)
         tok.handle_cex(rep, "wiring[%s]" % inp, ex, replay_fn, ideal=True)
